@@ -7,7 +7,9 @@ import (
 	"os"
 	"time"
 
+	"github.com/enfein/mieru/v3/pkg/appctl/appctlpb"
 	"github.com/enfein/mieru/v3/pkg/protocol"
+	"google.golang.org/protobuf/proto"
 
 	"verif/engine/explore"
 	"verif/engine/runner"
@@ -29,6 +31,9 @@ type rparams struct {
 	Capacity int           // replay-cache capacity (0 = production default)
 	Seed     int64
 	Ds       int
+	// Reload: the operator reloads the user list between the recording and the replay
+	// ("same": identical list, "added": one more user); the server is driven at the Mux level
+	Reload string
 }
 
 func (p rparams) String() string {
@@ -36,7 +41,7 @@ func (p rparams) String() string {
 	if p.UDP {
 		t = "udp"
 	}
-	return fmt.Sprintf("%s tp=%s kind=%s when=%s wait=%v cache-capacity=%d seed=%d", t, p.TP, p.Kind, p.When, p.Wait, p.Capacity, p.Seed)
+	return fmt.Sprintf("%s tp=%s kind=%s when=%s wait=%v cache-capacity=%d reload=%q seed=%d", t, p.TP, p.Kind, p.When, p.Wait, p.Capacity, p.Reload, p.Seed)
 }
 
 var debugCache = os.Getenv("VERIF_DEBUG_CACHE") != ""
@@ -48,14 +53,27 @@ func rexec(p rparams, pats []xfer.NamedTP, ctl *explore.Ctl) explore.Result {
 	protocol.VerifReplayCapacity = p.Capacity
 	defer func() { protocol.VerifReplayCapacity = 0 }()
 	cfg := world.Config{UDP: p.UDP, MTU: 1400, ClientTP: xfer.FindTP(pats, p.TP), ServerTP: xfer.FindTP(pats, p.TP), Seed: p.Seed, Horizon: 400 * time.Second}
+	cfg.RawMux = p.Reload != ""
 	accepted := 0
 	replays := 0
 	inBounds := 0
 	genuineOK := false
 	ex := world.Run(cfg, ctl, func(w *world.World) {
+		dial := func(tag int) (net.Conn, error) {
+			if cfg.RawMux {
+				return w.RawDial()
+			}
+			return w.Dial(tag)
+		}
 		w.Go("srv-accept", "server", func() {
 			for {
-				c, _, err := w.Accept()
+				var c net.Conn
+				var err error
+				if cfg.RawMux {
+					c, err = w.RawAccept()
+				} else {
+					c, _, err = w.Accept()
+				}
 				if err != nil {
 					return
 				}
@@ -77,7 +95,7 @@ func rexec(p rparams, pats []xfer.NamedTP, ctl *explore.Ctl) explore.Result {
 		})
 		if p.Capacity > 0 {
 			// warm-up session so that the recorded entry is not the oldest of its generation
-			if c0, err := w.Dial(999); err == nil {
+			if c0, err := dial(999); err == nil {
 				c0.Write([]byte("warm-up"))
 				io.ReadFull(c0, make([]byte, 7))
 				c0.Close()
@@ -87,7 +105,7 @@ func rexec(p rparams, pats []xfer.NamedTP, ctl *explore.Ctl) explore.Result {
 		}
 		nBefore := len(w.Net.Dgrams)
 		// genuine session: write, read the echo
-		c, err := w.Dial(1000)
+		c, err := dial(1000)
 		if err != nil {
 			v.Add("setup", "genuine dial failed: %v", err)
 			return
@@ -111,6 +129,16 @@ func rexec(p rparams, pats []xfer.NamedTP, ctl *explore.Ctl) explore.Result {
 		}
 		if p.Wait > 0 {
 			vsched.Sleep(p.Wait)
+		}
+		if p.Reload != "" {
+			us := map[string]*appctlpb.User{}
+			for _, u := range world.DefaultUsers() {
+				us[u.GetName()] = u
+			}
+			if p.Reload == "added" {
+				us["zed"] = &appctlpb.User{Name: proto.String("zed"), Password: proto.String("pw-z")}
+			}
+			w.OnNode("server", func() { w.SMux.SetServerUsers(us) })
 		}
 		// the replays
 		var advConns []*simnet.Conn
@@ -197,7 +225,7 @@ func rexec(p rparams, pats []xfer.NamedTP, ctl *explore.Ctl) explore.Result {
 			}
 		}
 		// a fresh genuine session must still work (concurrently with the drain of the replays)
-		c2, err := w.Dial(1001)
+		c2, err := dial(1001)
 		if err == nil {
 			if _, err = c2.Write(msg[:100]); err == nil {
 				_, err = io.ReadFull(c2, echo[:100])
@@ -287,6 +315,24 @@ func replayUnits(tier string) []runner.Unit {
 					for _, tp := range []string{"nil", "pad255"} {
 						i++
 						run(u, rparams{UDP: true, TP: tp, Kind: kind, When: when, Wait: wait, Seed: int64(100 + i)})
+					}
+				}
+			}
+		}
+	}})
+	// the operator reloads the user list between the recording and the replay
+	us = append(us, runner.Unit{Name: "replay-after-reload", Cost: 4, Run: func(u *runner.U) {
+		i := 0
+		for _, udp := range []bool{false, true} {
+			for _, reload := range []string{"same", "added"} {
+				for _, when := range []string{"during", "after-close"} {
+					for _, wait := range []time.Duration{0, 6 * time.Second} {
+						i++
+						kind := "first"
+						if udp {
+							kind = "each"
+						}
+						run(u, rparams{UDP: udp, TP: "nil", Kind: kind, When: when, Wait: wait, Reload: reload, Seed: int64(400 + i)})
 					}
 				}
 			}
